@@ -149,6 +149,11 @@ func NewTemporal(id string, t time.Time) (*Predicate, error) {
 	if id == "" {
 		return nil, fmt.Errorf("predicate.NewTemporal(%q, %v) cannot create a temporal predicate with empty ID", id, t)
 	}
+	if _, off := t.Zone(); off%60 != 0 {
+		// RFC 3339 writes a zone offset to the minute: printed in a zone whose
+		// offset has seconds the anchor would name another instant.
+		t = t.UTC()
+	}
 	return &Predicate{
 		id:     ID(id),
 		anchor: &t,
